@@ -797,7 +797,7 @@ static Boolean DecodeMOVE_1(int Start) {
             Result      = True;
             DAsmCode[0] = 0x408000 + MixErg + (LeftAdrResult.Val << 8);
             CodeLen     = 1;
-        } else {
+        } else if (LeftAdrResult.Type != ModNone) {
             Result      = True;
             DAsmCode[0] = 0x40c000 + MixErg + (LeftAdrResult.Mode << 8);
             DAsmCode[1] = LeftAdrResult.Val;
@@ -818,7 +818,7 @@ static Boolean DecodeMOVE_1(int Start) {
             Result      = True;
             DAsmCode[0] = 0x400000 + MixErg + (RightAdrResult.Val << 8);
             CodeLen     = 1;
-        } else {
+        } else if (RightAdrResult.Type != ModNone) {
             Result      = True;
             DAsmCode[0] = 0x404000 + MixErg + (RightAdrResult.Mode << 8);
             DAsmCode[1] = RightAdrResult.Val;
